@@ -74,7 +74,7 @@ Theorem submit_one_grounded_iff (e : engine) k f now debit :
   snd (submit_flights e k [f] now debit) = Some EGrounded <-> grounded (get_create e k now) now.
 Proof.
   rewrite <- submit_flight_grounded_iff with (f := f) (taxi := pTaxi (a_params (e_admin e))) (debit := debit).
-  unfold submit_flights. cbn [submit_loop].
+  unfold submit_flights, submit_loop. cbn [submit_loop_from checkin_one].
   destruct (submit_flight (get_create e k now) f now (pTaxi (a_params (e_admin e))) debit) as [[[t1 bac] pd]|er] eqn:Es.
   - cbn [snd]. split; discriminate.
   - cbn [snd]. split; intros H; [injection H as ->; reflexivity|injection H as ->; reflexivity].
@@ -122,23 +122,46 @@ Fixpoint in_order (prev : Z) (fs : list flight) : Prop :=
   | f :: r => et f = Fl /\ 0 < fstart f /\ prev <= fstart f /\ in_order (fstart f) r
   end.
 
-Theorem in_order_submission_not_grounded fs : forall (t : traveller) pc now p debit,
-  ordered (t_hist t) -> ~ grounded t now -> in_order (fstart (getf (entries (t_hist t)) 0)) fs ->
-  submit_loop t pc fs now p debit <> inr EGrounded.
+(** with the repair the clearance of a check-in is decided once, at its first flight: the further
+    flights of the submission are never refused as grounded *)
+Lemma follow_on_never_grounded (t : traveller) f now taxi debit : follow_on_flight t f now taxi debit <> inr EGrounded.
+Proof. unfold follow_on_flight. destruct (add_flight (t_hist t) f); discriminate. Qed.
+
+Lemma rest_of_submission_never_grounded fs : forall (t : traveller) pc now p debit,
+  submit_loop_from false t pc fs now p debit <> inr EGrounded.
 Proof.
-  induction fs as [|f r IH]; intros t pc now p debit Ho Hng Hin; cbn [submit_loop]; [discriminate|].
-  destruct Hin as (Het & Hpos & Hle & Hrest).
+  induction fs as [|f r IH]; intros t pc now p debit; cbn [submit_loop_from checkin_one]; [discriminate|].
+  destruct (follow_on_flight t f now (pTaxi p) debit) as [[[t1 bac] pd]|er] eqn:Es; [apply IH|].
+  intros C. injection C as ->. exact (follow_on_never_grounded _ _ _ _ _ Es).
+Qed.
+
+(** THE multi-flight statement: a submission of any number of flights, in any order, is refused as
+    grounded if and only if the traveller is grounded at the moment of the check-in *)
+Theorem submission_grounded_iff (t : traveller) pc f r now p debit :
+  submit_loop t pc (f :: r) now p debit = inr EGrounded <-> grounded t now.
+Proof.
+  rewrite <- (submit_flight_grounded_iff t f now (pTaxi p) debit).
+  unfold submit_loop. cbn [submit_loop_from checkin_one].
   destruct (submit_flight t f now (pTaxi p) debit) as [[[t1 bac] pd]|er] eqn:Es.
-  - pose proof (submit_flight_hist _ _ _ _ _ _ _ _ Es) as Ha.
-    destruct (add_at_head (t_hist t) f Ho Hle ltac:(lia)) as (h' & Ea & Ehead & Ho').
-    rewrite Ea in Ha. injection Ha as Ha.
-    set (t2 := if _ && _ then _ else t1).
-    assert (Hh2 : t_hist t2 = h').
-    { unfold t2. destruct (_ && _); cbn [transact t_hist]; congruence. }
-    apply IH; rewrite ?Hh2; [exact Ho'| |rewrite Ehead; exact Hrest].
-    apply mid_trip_never_grounded. rewrite Hh2. unfold mid_trip, hempty. rewrite Ehead.
-    unfold is_end. rewrite Het. destruct (fstart f =? 0); reflexivity.
-  - intros C. injection C as ->. apply Hng. apply (submit_flight_grounded_iff t f now (pTaxi p) debit). exact Es.
+  - split; [intros C; exfalso; exact (rest_of_submission_never_grounded _ _ _ _ _ _ C)|discriminate].
+  - split; intros H; injection H as ->; reflexivity.
+Qed.
+
+Theorem in_order_submission_not_grounded fs : forall (t : traveller) pc now p debit,
+  ~ grounded t now -> submit_loop t pc fs now p debit <> inr EGrounded.
+Proof.
+  intros t pc now p debit Hng. destruct fs as [|f r]; [discriminate|].
+  intros C. apply Hng. apply (submission_grounded_iff t pc f r now p debit). exact C.
+Qed.
+
+(** engine level: any submission *)
+Theorem submit_flights_grounded_iff (e : engine) k f r now debit :
+  snd (submit_flights e k (f :: r) now debit) = Some EGrounded <-> grounded (get_create e k now) now.
+Proof.
+  rewrite <- (submission_grounded_iff (get_create e k now) (a_pc (e_admin e)) f r now (a_params (e_admin e)) debit).
+  unfold submit_flights.
+  destruct (submit_loop (get_create e k now) (a_pc (e_admin e)) (f :: r) now (a_params (e_admin e)) debit) as [[t' pc']|er];
+    cbn [snd]; split; try discriminate; intros H; injection H as ->; reflexivity.
 Qed.
 
 End WithNum.
